@@ -174,8 +174,109 @@ def shuffle_orders(db, rng):
     return done
 
 
+# attribute definitions of kinds the DBC format does not know / that are oddly written (Define() leaves .type None for them):
+# what every SYM import registers (BOOL, STR), an empty definition, lower-case type words, ENUMs with odd quoting
+ODD_DEFINES = ["BOOL False True", "STR", "", "int 0 10", "string", "BOOL", 'ENUM  "a b","c,d", "e"', "ENUM a,b", 'ENUM "x"',
+               "FLOAT -1.5 1e3", "HEX 0 255", "STRING "]
+
+
+def add_odd_defines(db, rng):
+    """defines of odd kinds in all four categories, some with defaults, some used by an object"""
+    added = []
+    cats = [("global", db.add_global_defines, [db]), ("ecu", db.add_ecu_defines, list(db.ecus)),
+            ("frame", db.add_frame_defines, list(db.frames)), ("signal", db.add_signal_defines, [s_ for f in db.frames for s_ in f.signals])]
+    for cat, adder, objs in cats:
+        for k in range(rng.randrange(1, 3)):
+            d = rng.choice(ODD_DEFINES)
+            name = "Odd%s%d" % (cat.capitalize(), k)
+            adder(name, d)
+            if rng.random() < 0.5:
+                db.add_define_default(name, rng.choice(["True", "False", "0", "x", '"quoted"']))
+            if objs and rng.random() < 0.6:
+                val = "True" if d.startswith("BOOL") else ("1" if d.upper().startswith(("INT", "HEX", "ENUM", "FLOAT")) else "txt")
+                rng.choice(objs).add_attribute(name, val)
+            added.append([cat, name, d])
+    return added
+
+
+# ---- matrices produced by the READERS ----
+SAMPLE_DIRS = ("dbc", "dbf", "sym", "kcd", "json", "arxml", "xlsx")
+FILE_BASE = -1000          # idx = FILE_BASE - (4 * file number + bus number)
+BUSES_PER_FILE = 4
+REREAD_BASE = 1000000      # idx = REREAD_BASE + 8 * generated case + format number
+REREAD_FORMATS = [("dbc", "dbc", {}), ("dbf", "dbf", {}), ("sym", "sym", {}), ("kcd", "kcd", {}), ("json", "json", {"jsonExportAll": True}),
+                  ("arxml", "arxml", {}), ("fibex", "fibex", {}), ("xls", "xls", {})]
+
+
+def sample_files(repo):
+    out = []
+    for d in SAMPLE_DIRS:
+        p = os.path.join(repo, "tests", "files", d)
+        if os.path.isdir(p):
+            out += [os.path.join(p, f) for f in sorted(os.listdir(p))]
+    return out
+
+
+def _pick_bus(dbs, bus):
+    """the bus-th matrix (by sorted key) that has frames"""
+    if not dbs:
+        return None
+    keys = sorted(k for k in dbs if dbs[k] is not None and len(dbs[k].frames) > 0)
+    return (keys[bus], dbs[keys[bus]]) if bus < len(keys) else None
+
+
+def file_case(idx, C):
+    import canmatrix.formats as F
+    import core
+    n = FILE_BASE - idx
+    fi, bus = divmod(n, BUSES_PER_FILE)
+    files = sample_files(core.REPO)
+    info = dict(profile="sample-file", idx=idx, features={})
+    if fi >= len(files):
+        return None, dict(info, skipped="no such file")
+    info["file"] = os.path.relpath(files[fi], core.REPO)
+    info["bus_number"] = bus
+    try:
+        with contextlib.redirect_stdout(io.StringIO()):
+            dbs = F.loadp(files[fi])
+    except Exception as e:
+        return None, dict(info, skipped="reader raised %s" % type(e).__name__)
+    got = _pick_bus(dbs, bus)
+    if got is None:
+        return None, dict(info, skipped="no such bus")
+    info["bus"] = got[0]
+    return got[1], info
+
+
+def reread_case(base_seed, idx, C):
+    import canmatrix.formats as F
+    j, fn = divmod(idx - REREAD_BASE, 8)
+    key, mod, opt = REREAD_FORMATS[fn]
+    db0, info0 = build_case(base_seed, j, C)
+    info = dict(profile="reread-" + key, idx=idx, base_seed=base_seed, features={}, generated_case=j, via=key)
+    tmp = None
+    try:
+        with contextlib.redirect_stdout(io.StringIO()):
+            f = NamedBytesIO()
+            F.dump({BUS: db0} if mod in CLUSTER_WRITERS else db0, f, mod, **opt)
+            data = f.getvalue()
+            dbs = F.loads(data, mod, key="")
+    except Exception as e:
+        return None, dict(info, skipped="write/read raised %s" % type(e).__name__)
+    got = _pick_bus(dbs, 0)
+    if got is None:
+        return None, dict(info, skipped="nothing read back")
+    return got[1], info
+
+
 def build_case(base_seed, idx, C):
-    """-> (matrix, feature dict).  idx < 0: the fixed corpus; else profiles cycle with idx so every tier sees all of them."""
+    """-> (matrix or None, feature dict).  idx in -1..-N_CORPUS: the fixed corpus; idx <= FILE_BASE: a shipped sample file read by
+    its reader; idx >= REREAD_BASE: a generated matrix written and read back through one format; else generated, profiles cycle
+    with idx so every tier sees all of them."""
+    if idx <= FILE_BASE:
+        return file_case(idx, C)
+    if idx >= REREAD_BASE:
+        return reread_case(base_seed, idx, C)
     if idx < 0:
         return corpus_case(-idx, C)
     rng = random.Random(base_seed * 7919 + idx)
@@ -223,6 +324,9 @@ def build_case(base_seed, idx, C):
         fr.update_receiver()
         db.add_frame(fr)
         info["bigmux"] = dict(width=w, values=vals)
+    # ---- attribute definitions of kinds a writer may want to 'repair' ----
+    if idx % 2 == 1:
+        info["odd_defines"] = add_odd_defines(db, random.Random(base_seed * 977 + idx))
     # ---- no list or dict of the matrix is in a 'canonical' order: whatever a writer might normalise in place (multiplexer
     #      first, frames by id or name, sorted receivers, sorted value tables ...) has something to change ----
     if idx % 4 != 3:
